@@ -529,7 +529,7 @@ def clause_f(ctx: Context) -> None:
                      "zero particles), and every later representation depends on the matrix (and, inside the loop, on a previous "
                      "representation)")
     idx = get_index(ctx.repo)
-    fns = [f for f in idx.all_functions() if f.name == "calculate_interferometer_on_fermionic_fock_space"]
+    fns = [f for f in idx.all_functions() if "calculate_interferometer_on_fermionic_fock_space" in f.name]
     impls = []
     for fn in fns:
         apps = [n for n in walk_no_nested(fn.node) if isinstance(n, ast.Call) and isinstance(n.func, ast.Attribute) and n.func.attr == "append"
